@@ -167,6 +167,38 @@ func (rn *Runner) Run() {
 	_ = json.Unmarshal(b, &scRaw)
 	r.Emit("begin", "t", rn.T, "scn", sc.ID, "sc", scRaw, "seterr", seterr, "dsn", dsnUsed,
 		"mailexp", sender, "rcptexp", rcpts)
+	if sc.Kind == "rawaddr" { // the smtp package used directly: Mail / Rcpt with a value that carries a line break
+		inj := map[string]string{"plain": "", "lf": ">\nRCPT TO:<smuggled@evil.test", "cr": ">\rRCPT TO:<smuggled@evil.test",
+			"crlf": ">\r\nRCPT TO:<smuggled@evil.test"}[sc.Helo]
+		conn, _ := dial(context.Background(), "tcp", "mail.example.test:25")
+		sc2, err := smtp.NewClient(conn, "mail.example.test")
+		if err != nil {
+			rn.Infra = err
+			return
+		}
+		_ = sc2.Hello("client.test")
+		if sc.Setter == "From" {
+			merr := sc2.Mail("sender@from.test" + inj)
+			r.Emit("ret", "op", "Mail", "err", merr != nil, "text", clip(merr))
+			if merr != nil {
+				_ = sc2.Mail("sender@from.test")
+			}
+			_ = sc2.Rcpt("rcpt@to.test")
+		} else {
+			_ = sc2.Mail("sender@from.test")
+			rerr := sc2.Rcpt("rcpt@to.test" + inj)
+			r.Emit("ret", "op", "Rcpt", "err", rerr != nil, "text", clip(rerr))
+			if rerr != nil {
+				_ = sc2.Rcpt("rcpt@to.test")
+			}
+		}
+		_ = sc2.Quit()
+		_ = sc2.Close()
+		srv.Wait(10 * time.Second)
+		r.Emit("end", "t", rn.T)
+		r.Seal()
+		return
+	}
 	if sc.Kind == "rawhelo" { // the smtp package used directly: a refused name, then business as usual
 		conn, _ := dial(context.Background(), "tcp", "mail.example.test:25")
 		sc2, err := smtp.NewClient(conn, "mail.example.test")
